@@ -245,8 +245,6 @@ func (x *Exec) scanMods(fn *ssa.Function, blocks []*ssa.BasicBlock, spec *FuncSp
 			case *ssa.Defer:
 				x.callMods(fn, &in.Call, ms, depth, seen)
 			case *ssa.Go:
-			case *ssa.Select, *ssa.Send:
-				ms.Heap["chan"] = true
 			case *ssa.UnOp:
 			}
 		}
